@@ -87,3 +87,91 @@ Example C03_using_example :
                                      (SrcTable 2 [[VInt 1; VInt 7]]) [(0, 0)%nat])
   = Ok [[VInt 1; VInt 10; VInt 7]; [VNull; VInt 20; VNull]].
 Proof. vm_compute. reflexivity. Qed.
+
+(* ---- LATERAL joins -------------------------------------------------------------------------------------- *)
+(* The derived table of a LATERAL join may refer to the columns of the left operand: it is a function `sub`
+   of the left row.  The rows of the join are, per left row and in the order of the left rows, the
+   CROSS / INNER / LEFT join of that single row with the derived table evaluated for it - so every theorem
+   about the join kinds above applies row by row - and nothing else; RIGHT and FULL are rejected. *)
+Require Import Csvq.Proofs.Lateral.
+Theorem C03_lateral_join_rows : forall strict k l rw sub cond out,
+  eval_source strict (SrcLateral k l rw sub cond) = Ok out <->
+  lateral_kind k = true /\
+  exists ls parts,
+    eval_source strict l = Ok ls /\
+    Forall2 (fun o part => exists rs, eval_query strict (sub o) = Ok rs /\
+                                      join_rows k cond (src_width l) rw [o] rs = Ok part) ls parts /\
+    out = concat parts.
+Proof. exact lateral_source_spec. Qed.
+Print Assumptions C03_lateral_join_rows.
+
+(* a derived table that does not use the left row: LATERAL is the ordinary join *)
+Theorem C03_lateral_without_reference_is_the_plain_join : forall k cond lw rw rs ls,
+  lateral_kind k = true ->
+  lateral_rows k cond lw rw (fun _ => Ok rs) ls = join_rows k cond lw rw ls rs.
+Proof. exact lateral_rows_const. Qed.
+
+Theorem C03_lateral_error_is_total : forall k cond lw rw sub ls l e,
+  In l ls -> sub l = Err e -> exists e', lateral_rows k cond lw rw sub ls = Err e'.
+Proof. exact lateral_rows_error. Qed.
+
+Theorem C03_lateral_right_full_rejected : forall strict k l rw sub cond,
+  lateral_kind k = false -> forall out, eval_source strict (SrcLateral k l rw sub cond) <> Ok out.
+Proof. exact lateral_right_full_rejected. Qed.
+
+Example C03_lateral_example :
+  eval_source false
+    (SrcLateral JLeft (SrcTable 1 [[VInt 1]; [VInt 2]; [VInt 3]]) 1
+       (fun o => Q (BSelect (SrcJoin JCross (SrcTable 1 [o]) (SrcTable 1 [[VInt 2]; [VInt 3]; [VInt 3]]) None)
+                            (Some (ECmp Compare.OpEq (ECol 0) (ECol 1))) None None [SExpr (ECol 1)] false) [] None None)
+       None)
+  = Ok [[VInt 1; VNull]; [VInt 2; VInt 2]; [VInt 3; VInt 3]; [VInt 3; VInt 3]].
+Proof. vm_compute. reflexivity. Qed.
+
+(* ---- recursive common table expressions ------------------------------------------------------------------ *)
+(* WITH RECURSIVE t AS (base UNION [ALL] step): `step` is the recursive query as a function of the rows the
+   temporary view holds.  The result is the base rows followed by the rows of every iteration - each computed
+   from the rows of the iteration before, up to the first empty one - combined by UNION ALL (everything, in
+   that order) or UNION (the first row of every key); more iterations than --limit-recursion allows are an
+   error, never a shortened result. *)
+Theorem C03_recursive_cte_rows : forall strict all w base step limit out,
+  eval_source strict (SrcRec all w base step limit) = Ok out <->
+  exists b ws,
+    eval_query strict base = Ok b /\
+    chain (fun work => eval_query strict (step work)) b ws /\
+    (length ws < limit)%nat /\
+    out = combine_rows strict all (b ++ concat ws).
+Proof. exact rec_source_spec. Qed.
+Print Assumptions C03_recursive_cte_rows.
+
+Theorem C03_recursive_cte_iterations_are_determined : forall step w ws1 ws2,
+  chain step w ws1 -> chain step w ws2 -> ws1 = ws2.
+Proof. intros step w ws1 ws2 H1 H2. exact (chain_functional step w ws1 H1 ws2 H2). Qed.
+
+Theorem C03_recursive_cte_limit_is_an_error : forall strict all step fuel acc work ws,
+  chain step work ws -> (fuel <= length ws)%nat -> rec_loop strict all step fuel acc work = Err (EOther 97).
+Proof. exact rec_loop_limit. Qed.
+
+Theorem C03_recursive_union_keeps_one_row_per_key : forall strict l,
+  ForallOrdPairs (fun a b => Key.keys_eqb (Key.row_key strict a) (Key.row_key strict b) = false) (combine_rows strict false l) /\
+  (forall x, In x (combine_rows strict false l) -> In x l) /\
+  (forall x, In x l -> exists y, In y (combine_rows strict false l) /\ Key.keys_eqb (Key.row_key strict x) (Key.row_key strict y) = true).
+Proof. exact rec_union_has_one_row_per_key. Qed.
+Print Assumptions C03_recursive_union_keeps_one_row_per_key.
+
+Theorem C03_recursive_union_all_keeps_everything : forall strict l, combine_rows strict true l = l.
+Proof. reflexivity. Qed.
+
+(* 1, 2, 3 by UNION ALL; the duplicates of the base query disappear under UNION also when the first
+   iteration is already empty *)
+Example C03_recursive_example :
+  eval_source false
+    (SrcRec true 1 (Q (BSelect (SrcTable 1 [[VInt 1]]) None None None [SExpr (ECol 0)] false) [] None None)
+       (fun work => Q (BSelect (SrcTable 1 work) (Some (ECmp Compare.OpLt (ECol 0) (ELit (VInt 3)))) None None
+                               [SExpr (EArith Arith.APlus (ECol 0) (ELit (VInt 1)))] false) [] None None) 10)
+  = Ok [[VInt 1]; [VInt 2]; [VInt 3]] /\
+  eval_source false
+    (SrcRec false 1 (Q (BSelect (SrcTable 1 [[VInt 1]; [VInt 1]; [VInt 2]]) None None None [SExpr (ECol 0)] false) [] None None)
+       (fun work => Q (BSelect (SrcTable 1 work) (Some (ELit (VTern TF))) None None [SExpr (ECol 0)] false) [] None None) 10)
+  = Ok [[VInt 1]; [VInt 2]].
+Proof. vm_compute. split; reflexivity. Qed.
